@@ -47,6 +47,12 @@ P3 == RawProg(<<2, 3, 7, 1>>,
         << ArithPI(0, -1, 0, 0, 0, 0, <<6, 0, 0, 0>>, 2),
            ArithPI(0, -1, 0, 0, 0, 0, <<7, 0, 0, 0>>, 3),
            Arith(0, 1, 1, -1, 2, 0, <<6, 7, 8, 9>>) >>)
+\* wires with a zero coefficient tied to witnesses used elsewhere
+P4 == RawProg(<<2, 3, 6, 5>>,
+        << Arith(1, 0, 0, -1, 0, 0, <<6, 7, 8, 9>>),          \* 2*3 = 6, d unused
+           Arith(0, 1, 1, 0, 0, -5, <<6, 7, 8, 6>>),          \* 2+3 = 5, c and d unused
+           ArithPI(0, 0, 0, 1, 0, 0, <<7, 9, 8, 7>>, -6),     \* c = 6 public, a b d unused
+           Arith(0, 0, 0, 0, 1, -5, <<8, 8, 6, 9>>) >>)       \* d = 5, a b c unused
 RawFamily == {P1, P2, P3}
 
 (* ================================ c04 ================================== *)
@@ -62,9 +68,12 @@ NoPick(p, j) == FALSE
 
 (* ================================ c02 ================================== *)
 C02Caps == {64}
-C02Progs == RawFamily \cup { Cat("rawrange", 12, "first"), Cat("rawlogic", 12, "last"),
+C02Progs == RawFamily \cup {P4} \cup { Cat("rawrange", 12, "first"), Cat("rawlogic", 12, "last"),
                              Cat("ecc", 12, "zero"), Cat("arith", 16, "firstlast"),
-                             Cat("range", 32, "none"), Cat("boolsel", 16, "customlast") }
+                             Cat("range", 32, "none"), Cat("boolsel", 16, "customlast"),
+                             Cat("rawrange", 8, "customlast"), Cat("decomp", 32, "adjfirst"),
+                             Cat("ecc", 16, "adjlast"), Cat("rawlogic", 8, "zerolast"),
+                             Cat("arith", 10, "zero"), Cat("range", 16, "last") }
 C02Big == { Cat("fixed", 400, "first") }
 C02ProgsFor(d) == IF d = 64 THEN C02Progs ELSE C02Big
 C02CapsAll == IF EnvInt("LIFE_BIG", 0) = 1 THEN {64, 512} ELSE {64}
@@ -79,7 +88,8 @@ C02Pick(p, j) == IF UserWitnesses(p) <= 64 THEN TRUE ELSE Hash(j, 0, 3) % 40 = 0
 \* splices: every single field, every pair, the round-aligned blocks, a seeded
 \* sample of larger subsets, nothing and everything
 Blocks == { 0..3, {4}, 5..8, 9..10, 11..25, 0..10, 11..17, 18..21, 22..25 }
-Sampled == { { i \in 0..25 : Hash(i, t, 7) % 5 < 2 } : t \in 1..EnvInt("LIFE_NSPLICE", 24) }
+Mix(i, t) == ((((i * 7919 + t * 104729 + Seed * 611953) % 1009) * (i + t + 17)) % 97) % 5
+Sampled == { { i \in 0..25 : Mix(i, t) < 1 + (t % 4) } : t \in 1..EnvInt("LIFE_NSPLICE", 24) }
 C02Splices ==
   { {i} : i \in 0..25 } \cup { {x[1], x[2]} : x \in { y \in (0..25) \X (0..25) : y[1] < y[2] } }
   \cup Blocks \cup Sampled \cup { {}, 0..25 }
